@@ -61,6 +61,16 @@ CHECKS = {
              "decided as a model-derived relation on real hashes.",
         note="Bounded universe; BLAKE3 collision-freeness; hooks verif::legacy_state_root / accumulator_state_root / apply_ops.",
         design="3 C06"),
+    "C18": dict(
+        technique="TLC model checking of MC_C18.tla over Bus.tla (every emission order of every bounded token subset; finalize = order-free oracle of the emission set) + conformance replay into the real MaterializationBus (all n! orders for sets up to 7) + metamorphic relation on real bytes/digest/encodings + trace validation (BusTrace.tla) of seeded 8-40-emission runs",
+        text="Bus.tla transcribes register/emit/finalize and the eight reducers on byte sequences and carries a second, declarative oracle defined on the emission SET (for commutative reducers on the payload BAG only). "
+             "TLC walks every order of every subset (perm cfgs, repeated (channel,key) included) or every repeat-free subset (set cfgs) and checks that pending is the set of first arrivals, a repeat is rejected and changes "
+             "nothing, and the report equals the oracle. Every finalized behaviour is exported with its predicted report and replayed on the real bus through ScopedEmitter; for set cfgs the harness replays all permutations. "
+             "The runner decides the property on the real outcomes: same policies and same emission set give identical finalized bytes, conflicts, compute_emissions_digest, encode_frames and encode_v2_packet bytes; each "
+             "(channel,key) is accepted exactly once and a rejected emit leaves no trace; commutative channels with the same payload bag give the same bytes whatever the keys. Seeded larger sets in several shuffles are logged "
+             "and validated by BusTrace.tla.",
+        note="Bounded universes (2-3 channels, <=6 keys, payload lengths 0,1,2,3,8,9); abstract keys/channels mapped by monotone tables; BLAKE3 collision-freeness; a conflicting repeat keeps the first arrival (emission set = set of first arrivals). No hook needed.",
+        design="9.2 C18"),
 }
 
 NOT_APPLICABLE = {
